@@ -1,5 +1,6 @@
 import SpecVerif.Proofs.Lemmas.Dpss
 import SpecVerif.Proofs.Lemmas.SincKernel
+import SpecVerif.Proofs.Lemmas.DpssTri
 /-
   C18 — `dpss(N, NW, k)`: the Python glue around the C eigen-solver.
 
@@ -15,8 +16,15 @@ import SpecVerif.Proofs.Lemmas.SincKernel
     5. hence it lies in `[0,1]` for a unit taper as soon as `0 ≤ K ≤ I` as quadratic forms (hypothesis);
     6. that hypothesis is PROVED for `0 ≤ W ≤ 1/2` (`sinc_kernel_bounds`: `vᵀKv` is the energy of `Σ v_n e^{2πifn}` inside
        `|f| ≤ W`, `vᵀv` its energy inside `|f| ≤ 1/2`), so the ratio lies in `[0,1]` unconditionally, and strictly inside
-       `(0,1)` for `0 < W < 1/2` (a non-zero trigonometric polynomial does not vanish on an interval).
-  Property theorems only (helpers: `Proofs/Lemmas/Dpss.lean`, namespace `SpecVerif.DpssL`).
+       `(0,1)` for `0 < W < 1/2` (a non-zero trigonometric polynomial does not vanish on an interval);
+    7. the symmetric tridiagonal matrix `T` that the C routine `multitap` builds and hands to EISPACK
+       (`Model/DpssTri.lean`: `diag[i] = -cos(2πW)((N-1)/2 - i)²`, `offdiag[i] = -i(N-i)/2`) COMMUTES with the sinc kernel
+       `K`, is unreduced, hence has one-dimensional eigenspaces, hence every eigenvector of `T` is an eigenvector of `K`:
+       the eigenvector contract of part 4 ("the raw column is an eigenvector of the kernel") is replaced by "the raw
+       column is an eigenvector of the matrix the C code diagonalises", which an independent tridiagonal eigen-solver
+       can check (driver command `dpsstri`).
+  Property theorems only (helpers: `Proofs/Lemmas/Dpss.lean`, namespace `SpecVerif.DpssL`; `Proofs/Lemmas/DpssTri.lean`,
+  namespace `SpecVerif.DpssTriL`).
   All theorems are about the model at `R := ℝ` (instance `instRealFnReal`).
 -/
 namespace SpecVerif.C18
@@ -495,5 +503,160 @@ example : 0 < (dpssGlue 3 (1 : ℝ) [[1, 1, 1]] [3]).2.getD 0 0 ∧
     (dpssGlue 3 (1 : ℝ) [[1, 1, 1]] [3]).2.getD 0 0 < 1 :=
   reported_ratio_in_open_unit_interval (N := 3) (i := 0) (by norm_num) 1 [[1, 1, 1]] [3] (by norm_num) (by norm_num)
     (by simp) (by simp [Finset.sum_range_succ]; norm_num)
+
+/-! ### 7. the tridiagonal matrix the C routine diagonalises commutes with the sinc kernel
+
+`multitap` (src/cpp/mydpss.c) does not diagonalise the (ill-conditioned) kernel `K`; it builds the symmetric tridiagonal
+matrix `T` with `diag[i] = -cos(2πW)·((N-1)/2 - i)²`, `offdiag[i] = -i(N-i)/2` (EISPACK convention: `offdiag[i]`, `1 ≤ i ≤ N-1`,
+couples rows `i-1` and `i`), `W = npi/num_points`, and returns eigenvectors of `T` (`tridib` + `tinvit`).  Model:
+`dpssDiag`, `dpssOff`, `dpssTriEntry`, `dpssTriMul` of `Model/DpssTri.lean`.
+
+NOT proved (and not needed for what follows): that the ORDER of the eigenvalues of `T` matches the order of the eigenvalues
+of `K` — i.e. that the `nwin` smallest eigenvalues of `T` (which the routine selects) belong to the `nwin` MOST concentrated
+sequences.  That is Slepian's deeper result (Slepian 1978, via the oscillation / sign-change count of the eigenvectors);
+here only "eigenvector of `T` ⇒ eigenvector of `K`, and the reported ratio is its `K`-eigenvalue" is established. -/
+
+/-- the entries of the model's matrix at `ℝ`, spelled out: the C formulas -/
+theorem tridiag_entries (N : ℕ) (W : ℝ) (i j : ℕ) :
+    dpssTriEntry N W i j
+      = if i = j then -Real.cos (2 * Real.pi * W) * (((N : ℝ) - 1) / 2 - (i : ℝ)) ^ 2
+        else if i + 1 = j then -((j : ℝ) * ((N : ℝ) - (j : ℝ))) / 2
+        else if j + 1 = i then -((i : ℝ) * ((N : ℝ) - (i : ℝ))) / 2
+        else 0 := by
+  unfold dpssTriEntry
+  rw [DpssTriL.dpssDiag_real, DpssTriL.dpssOff_real, DpssTriL.dpssOff_real]
+
+/-- the matrix is symmetric -/
+theorem tridiag_symmetric (N : ℕ) (W : ℝ) (i j : ℕ) : dpssTriEntry N W i j = dpssTriEntry N W j i :=
+  DpssTriL.dpssTriEntry_symm N W i j
+
+/-- the model's three-term product `dpssTriMul` IS the matrix–vector product with these entries -/
+theorem tridiag_mul_is_matrix_product {N : ℕ} (W : ℝ) (v : List ℝ) {i : ℕ} (hi : i < N) :
+    (dpssTriMul N W v).getD i 0 = ∑ j ∈ range N, dpssTriEntry N W i j * v.getD j 0 :=
+  DpssTriL.getD_dpssTriMul W v hi
+
+/-- **`T K = K T`** (Slepian 1978), entry by entry, for every `N ≥ 1` and EVERY real `W`:
+`Σ_j T[m,j]·K[j,n] = Σ_j K[m,j]·T[j,n]` for all `m, n < N`.  (Per entry this is
+`sin(θ(k-1)) + sin(θ(k+1)) = 2 cos θ · sin(θk)` with `θ = 2πW`, `k = m - n`.) -/
+theorem tridiag_commutes_with_kernel {N : ℕ} (W : ℝ) {m n : ℕ} (hm : m < N) (hn : n < N) :
+    ∑ j ∈ range N, dpssTriEntry N W m j * sincKernel W j n
+      = ∑ j ∈ range N, sincKernel W m j * dpssTriEntry N W j n :=
+  DpssTriL.tri_mul_kernel_comm W hm hn
+
+/-- the same with both matrices written out -/
+theorem tridiag_commutes_with_kernel_explicit {N : ℕ} (W : ℝ) {m n : ℕ} (hm : m < N) (hn : n < N) :
+    ∑ j ∈ range N,
+        (if m = j then -Real.cos (2 * Real.pi * W) * (((N : ℝ) - 1) / 2 - (m : ℝ)) ^ 2
+         else if m + 1 = j then -((j : ℝ) * ((N : ℝ) - (j : ℝ))) / 2
+         else if j + 1 = m then -((m : ℝ) * ((N : ℝ) - (m : ℝ))) / 2 else 0)
+        * (if j = n then 2 * W
+           else Real.sin (2 * Real.pi * W * ((j : ℝ) - (n : ℝ))) / (Real.pi * ((j : ℝ) - (n : ℝ))))
+      = ∑ j ∈ range N,
+        (if m = j then 2 * W
+         else Real.sin (2 * Real.pi * W * ((m : ℝ) - (j : ℝ))) / (Real.pi * ((m : ℝ) - (j : ℝ))))
+        * (if j = n then -Real.cos (2 * Real.pi * W) * (((N : ℝ) - 1) / 2 - (j : ℝ)) ^ 2
+           else if j + 1 = n then -((n : ℝ) * ((N : ℝ) - (n : ℝ))) / 2
+           else if n + 1 = j then -((j : ℝ) * ((N : ℝ) - (j : ℝ))) / 2 else 0) := by
+  have h := tridiag_commutes_with_kernel W hm hn
+  simp only [tridiag_entries, sincKernel] at h
+  exact h
+
+/-- the matrix is UNREDUCED: every coupling `offdiag[i]`, `1 ≤ i ≤ N-1`, is non-zero (negative) -/
+theorem tridiag_unreduced {N i : ℕ} (h1 : 1 ≤ i) (h2 : i < N) : (dpssOff N i : ℝ) < 0 ∧ (dpssOff N i : ℝ) ≠ 0 :=
+  ⟨DpssTriL.dpssOff_neg h1 h2, DpssTriL.dpssOff_ne_zero h1 h2⟩
+
+/-- three-term recurrence: an eigenvector of `T` whose first component is `0` is the zero vector -/
+theorem tridiag_eigvec_zero_of_first_zero {N : ℕ} {W θ : ℝ} {v : ℕ → ℝ}
+    (hev : ∀ i, i < N → ∑ j ∈ range N, dpssTriEntry N W i j * v j = θ * v i) (h0 : v 0 = 0) :
+    ∀ i, i < N → v i = 0 :=
+  DpssTriL.eigvec_zero_of_first_zero hev h0
+
+/-- simple eigenvalues: two eigenvectors of `T` for the same eigenvalue are proportional -/
+theorem tridiag_eigenspace_one_dimensional {N : ℕ} {W θ : ℝ} {u v : ℕ → ℝ}
+    (hu : ∀ i, i < N → ∑ j ∈ range N, dpssTriEntry N W i j * u j = θ * u i)
+    (hv : ∀ i, i < N → ∑ j ∈ range N, dpssTriEntry N W i j * v j = θ * v i)
+    (hne : ∃ i, i < N ∧ v i ≠ 0) :
+    ∃ c : ℝ, ∀ i, i < N → u i = c * v i :=
+  DpssTriL.eigvec_proportional hu hv hne
+
+/-- **transfer**: every (non-zero) eigenvector of the tridiagonal matrix `T` is an eigenvector of the sinc concentration
+kernel `K` (`T (K v) = K (T v) = θ (K v)` and the `θ`-eigenspace of `T` is a line) -/
+theorem tridiag_eigenvector_is_kernel_eigenvector {N : ℕ} {W θ : ℝ} {v : ℕ → ℝ}
+    (hev : ∀ i, i < N → ∑ j ∈ range N, dpssTriEntry N W i j * v j = θ * v i)
+    (hne : ∃ i, i < N ∧ v i ≠ 0) :
+    ∃ μ : ℝ, ∀ n, n < N → ∑ m ∈ range N, sincKernel W n m * v m = μ * v n :=
+  DpssTriL.kernel_eigvec_of_tri_eigvec hev hne
+
+/-- non-vacuity (`N = 3`, every `W`): `(1, 0, -1)` is an eigenvector of `T` for `θ = -cos(2πW)`; it is not zero -/
+example (W : ℝ) : (∀ i, i < 3 → ∑ j ∈ range 3, dpssTriEntry 3 W i j * ([1, 0, -1] : List ℝ).getD j 0
+      = -Real.cos (2 * Real.pi * W) * ([1, 0, -1] : List ℝ).getD i 0) ∧
+    ∃ i, i < 3 ∧ ([1, 0, -1] : List ℝ).getD i 0 ≠ 0 := by
+  refine ⟨?_, 0, by norm_num, by norm_num⟩
+  intro i hi
+  have hi' : i = 0 ∨ i = 1 ∨ i = 2 := by omega
+  rcases hi' with rfl | rfl | rfl <;>
+    simp [Finset.sum_range_succ, tridiag_entries] <;> ring
+
+/-- **headline**: if the `i`-th raw column returned by the C routine is an eigenvector (eigenvalue `θ`) of the tridiagonal
+matrix the routine builds (`W = NW/N`) and has squared norm `N` (the routine's normalisation), then there is a real `μ`
+such that the raw column AND the `i`-th taper returned by `dpss` are eigenvectors of the sinc concentration kernel for the
+eigenvalue `μ`, and the `i`-th ratio returned by `dpss` is exactly `μ`.  (`reported_ratio_eq_eigenvalue_of_contract` with
+its hypothesis "eigenvector of the kernel" replaced by "eigenvector of the matrix the C code diagonalises".) -/
+theorem reported_ratio_eq_kernel_eigenvalue_of_tridiag_eigenvector {N : ℕ} (hN : 0 < N) (NW θ : ℝ)
+    (raws : List (List ℝ)) (tapsum : List ℝ) {i : ℕ} (hi : i < raws.length)
+    (htri : ∀ n, n < N →
+      (dpssTriMul N (NW / (N : ℝ)) (raws.getD i [])).getD n 0 = θ * (raws.getD i []).getD n 0)
+    (hnorm : ∑ n ∈ range N, (raws.getD i []).getD n 0 * (raws.getD i []).getD n 0 = (N : ℝ)) :
+    ∃ μ : ℝ,
+      (∀ n, n < N → ∑ m ∈ range N, sincKernel (NW / (N : ℝ)) n m * (raws.getD i []).getD m 0
+        = μ * (raws.getD i []).getD n 0) ∧
+      (∀ n, n < N →
+        ∑ m ∈ range N, sincKernel (NW / (N : ℝ)) n m * ((dpssGlue N NW raws tapsum).1.getD i []).getD m 0
+          = μ * ((dpssGlue N NW raws tapsum).1.getD i []).getD n 0) ∧
+      (dpssGlue N NW raws tapsum).2.getD i 0 = μ := by
+  have hev : ∀ n, n < N → ∑ j ∈ range N, dpssTriEntry N (NW / (N : ℝ)) n j * (raws.getD i []).getD j 0
+      = θ * (raws.getD i []).getD n 0 := by
+    intro n hn
+    rw [← tridiag_mul_is_matrix_product _ _ hn]
+    exact htri n hn
+  obtain ⟨μ, hμ⟩ := tridiag_eigenvector_is_kernel_eigenvector (v := fun n => (raws.getD i []).getD n 0) hev
+    (DpssTriL.exists_ne_zero_of_normsq hN _ hnorm)
+  obtain ⟨h1, h2⟩ := reported_ratio_eq_eigenvalue_of_contract hN NW μ raws tapsum hi hμ hnorm
+  exact ⟨μ, hμ, h1, h2⟩
+
+/-- the same for a whole call: if EVERY raw column is an eigenvector of the tridiagonal matrix with squared norm `N`, every
+returned taper is an eigenvector of the sinc kernel and every returned ratio is the corresponding kernel eigenvalue -/
+theorem dpss_columns_are_kernel_eigenvectors_of_tridiag {N : ℕ} (hN : 0 < N) (NW : ℝ)
+    (raws : List (List ℝ)) (tapsum : List ℝ)
+    (htri : ∀ i, i < raws.length → ∃ θ : ℝ, ∀ n, n < N →
+      (dpssTriMul N (NW / (N : ℝ)) (raws.getD i [])).getD n 0 = θ * (raws.getD i []).getD n 0)
+    (hnorm : ∀ i, i < raws.length →
+      ∑ n ∈ range N, (raws.getD i []).getD n 0 * (raws.getD i []).getD n 0 = (N : ℝ)) :
+    ∀ i, i < raws.length →
+      ∀ n, n < N →
+        ∑ m ∈ range N, sincKernel (NW / (N : ℝ)) n m * ((dpssGlue N NW raws tapsum).1.getD i []).getD m 0
+          = (dpssGlue N NW raws tapsum).2.getD i 0 * ((dpssGlue N NW raws tapsum).1.getD i []).getD n 0 := by
+  intro i hi
+  obtain ⟨θ, hθ⟩ := htri i hi
+  obtain ⟨μ, _, h2, h3⟩ :=
+    reported_ratio_eq_kernel_eigenvalue_of_tridiag_eigenvector hN NW θ raws tapsum hi hθ (hnorm i hi)
+  rw [h3]
+  exact h2
+
+/-- the hypotheses are satisfiable (`N = 2`, `NW = 1/2`, i.e. `W = 1/4`, `cos(2πW) = 0`, `T = [[0, -1/2], [-1/2, 0]]`):
+the column `(1, 1)` is an eigenvector of `T` for `θ = -1/2` and has squared norm `2 = N` -/
+example : (∀ n, n < 2 → (dpssTriMul 2 ((1 / 2 : ℝ) / ((2 : ℕ) : ℝ)) (([[1, 1]] : List (List ℝ)).getD 0 [])).getD n 0
+      = -(1 / 2) * (([[1, 1]] : List (List ℝ)).getD 0 []).getD n 0) ∧
+    ∑ n ∈ range 2, (([[1, 1]] : List (List ℝ)).getD 0 []).getD n 0 * (([[1, 1]] : List (List ℝ)).getD 0 []).getD n 0
+      = ((2 : ℕ) : ℝ) := by
+  have hc : Real.cos (2 * Real.pi * (1 / 4)) = 0 := by
+    rw [show 2 * Real.pi * (1 / 4) = Real.pi / 2 by ring, Real.cos_pi_div_two]
+  constructor
+  · intro n hn
+    rw [tridiag_mul_is_matrix_product _ _ hn]
+    have hn' : n = 0 ∨ n = 1 := by omega
+    rcases hn' with rfl | rfl <;>
+      simp [Finset.sum_range_succ, tridiag_entries] <;> norm_num <;> exact hc
+  · simp [Finset.sum_range_succ]; norm_num
 
 end SpecVerif.C18
